@@ -77,6 +77,7 @@ type Specs struct {
 	Fns       map[string]*SpecFn   // key: pkgpath::name (also visible unqualified from other packages if unique)
 	Ghosts    map[string]*GhostField
 	InlinePkg []string
+	GlobalInvs []*SpecFn
 	Files     []string
 	NAssume   int
 }
@@ -84,7 +85,7 @@ type Specs struct {
 var clauseKw = map[string]bool{"requires": true, "ensures": true, "modifies": true, "invariant": true,
 	"decreases": true, "ghost": true, "property": true, "attr": true, "assume": true, "havoc": true}
 
-var headRe = regexp.MustCompile(`^(func|functype|iface|extern|pred|fn|ghost|inlinepkg|opaque|modset)\b`)
+var headRe = regexp.MustCompile(`^(func|functype|iface|extern|pred|fn|ghost|inlinepkg|opaque|modset|globalinv)\b`)
 
 func loadSpecs(root string, pkgDirs map[string]string) (*Specs, error) {
 	sp := &Specs{Funcs: map[string]*Contract{}, Loops: map[string][]*Contract{}, Closures: map[string][]*Contract{},
@@ -157,6 +158,12 @@ func (sp *Specs) parseFile(pkgPath, file string) error {
 				rest = strings.TrimSpace(rest[len(kw):])
 			}
 			switch kw {
+			case "globalinv":
+				// globalinv <expr over package-level variables>: holds after package initialisation and is never broken
+				// (the variables it mentions may be written only by init; checked syntactically)
+				fn := &SpecFn{Pkg: pkgPath, Name: fmt.Sprintf("globalinv:%d", len(sp.GlobalInvs)), Where: where, Body: rest, Result: "bool"}
+				sp.GlobalInvs = append(sp.GlobalInvs, fn)
+				curFn = fn
 			case "modset":
 				// modset name(p) := l-value, l-value, ...   (textual abbreviation usable in modifies clauses)
 				idx := strings.Index(rest, ":=")
